@@ -3,6 +3,8 @@ package main
 import (
 	"fmt"
 	"go/types"
+	"os"
+	"sort"
 	"strings"
 
 	"golang.org/x/tools/go/ssa"
@@ -348,22 +350,63 @@ func (fr *FnRun) havocReachable(st *State, v Val, seen map[*Obj]bool) {
 // ghostStruct: the ghost-only state of an opaque object (interface values of unknown dynamic type).
 func (ex *Exec) ghostStruct(t types.Type, name string) *StructV {
 	sv := &StructV{T: t}
-	for _, g := range ex.DB.Ghosts[TypeKey(t)] {
-		if sv.Ghost == nil {
-			sv.Ghost = map[string]Val{}
+	add := func(gs []*GhostField) {
+		for _, g := range gs {
+			if sv.Ghost == nil {
+				sv.Ghost = map[string]Val{}
+			}
+			if _, dup := sv.Ghost[g.Name]; dup {
+				continue
+			}
+			srt, err := sortByName(g.Sort)
+			if err != nil {
+				panic(err)
+			}
+			gv := Var(name+"."+g.Name, srt)
+			if g.Sort == "Bytes" {
+				kk := Var("k!r", SInt)
+				ex.varFacts[gv.Name] = Forall([]*Term{kk}, And(Le(Int(0), Select(gv, kk)), Lt(Select(gv, kk), Int(256))), Select(gv, kk))
+			}
+			sv.Ghost[g.Name] = gv
 		}
-		srt, err := sortByName(g.Sort)
-		if err != nil {
-			panic(err)
+	}
+	add(ex.DB.Ghosts[TypeKey(t)])
+	// an interface value also carries the ghost state of every declared interface it implements
+	// (a net.Conn is an io.Reader and an io.Writer)
+	if it, ok := under(t).(*types.Interface); ok {
+		var keys []string
+		for k := range ex.DB.Ghosts {
+			keys = append(keys, k)
 		}
-		gv := Var(name+"."+g.Name, srt)
-		if g.Sort == "Bytes" {
-			kk := Var("k!r", SInt)
-			ex.varFacts[gv.Name] = Forall([]*Term{kk}, And(Le(Int(0), Select(gv, kk)), Lt(Select(gv, kk), Int(256))), Select(gv, kk))
+		sort.Strings(keys)
+		for _, k := range keys {
+			if k == TypeKey(t) {
+				continue
+			}
+			if other := ex.lookupInterface(k); other != nil && types.Implements(it, other) {
+				add(ex.DB.Ghosts[k])
+			}
 		}
-		sv.Ghost[g.Name] = gv
 	}
 	return sv
+}
+
+// lookupInterface resolves "pkgpath.Name" to an interface type of the loaded program.
+func (ex *Exec) lookupInterface(key string) *types.Interface {
+	i := strings.LastIndex(key, ".")
+	if i < 0 {
+		return nil
+	}
+	sp := ex.P.ByPkg[key[:i]]
+	if sp == nil {
+		return nil
+	}
+	obj := sp.Pkg.Scope().Lookup(key[i+1:])
+	if obj == nil {
+		return nil
+	}
+	it, _ := under(obj.Type()).(*types.Interface)
+	return it
 }
 
 // ---------------------------------------------------------------------------
@@ -418,6 +461,7 @@ func (fr *FnRun) applyContract(st *State, site ssa.Instruction, ctr *Contract, f
 		ex.Assumptions["assumed contract: "+callee] = true
 	}
 	old := st.clone()
+	freshMark := ex.counter
 	// frame
 	if ctr.ModAll {
 		for _, a := range args {
@@ -436,7 +480,7 @@ func (fr *FnRun) applyContract(st *State, site ssa.Instruction, ctr *Contract, f
 		if i < len(ctr.Results) {
 			nm = base + "." + ctr.Results[i]
 		}
-		v := ex.freshVal(rs.At(i).Type(), nm)
+		v := ex.deepForce(st, ex.freshVal(rs.At(i).Type(), nm), 0)
 		ex.assumeValid(st, v, rs.At(i).Type(), 0)
 		results = append(results, v)
 	}
@@ -491,6 +535,33 @@ func (fr *FnRun) applyContract(st *State, site ssa.Instruction, ctr *Contract, f
 		}
 		for _, en := range cs.Ensures {
 			st.assume(Implies(And(pre...), fr.evalBool(en.E, penv)))
+		}
+	}
+	// equality propagation for scalars defined by the postconditions
+	if os.Getenv("GOVC_NOPROP") == "" {
+		isFresh := func(n string) bool { return freshSuffixAfter(n, freshMark) }
+		for round := 0; round < 64; round++ {
+			// one defining equation at a time, so that definitions mentioning each other stay consistent
+			defs := map[string]*Term{}
+			for _, f := range st.facts[len(old.facts):] {
+				definingEquations(f, isFresh, defs)
+				if len(defs) > 0 {
+					break
+				}
+			}
+			if len(defs) == 0 {
+				break
+			}
+			one := map[string]*Term{}
+			for k, v := range defs {
+				one[k] = v
+				break
+			}
+			st.propagate(one)
+			seen := map[interface{}]Val{}
+			for i := range results {
+				results[i] = substVal(results[i], one, seen)
+			}
 		}
 	}
 	fr.assumeSticky(st, old, sig, args, results, callee, sig.Recv() != nil || ctr.Iface)
@@ -1067,4 +1138,32 @@ func storesToFreeVar(fn *ssa.Function, fv *ssa.FreeVar) bool {
 		}
 	}
 	return false
+}
+
+// deepForce materialises the lazily created fields of struct VALUES (not of pointees), so that
+// later substitutions and merges see one consistent set of variables.
+func (ex *Exec) deepForce(st *State, v Val, depth int) Val {
+	if depth > 6 {
+		return v
+	}
+	switch x := v.(type) {
+	case *LazyV:
+		return ex.deepForce(st, ex.force(st, x), depth+1)
+	case *StructV:
+		if x.F == nil {
+			return x
+		}
+		n := &StructV{T: x.T, F: make([]Val, len(x.F)), Ghost: x.Ghost}
+		for i, f := range x.F {
+			n.F[i] = ex.deepForce(st, f, depth+1)
+		}
+		return n
+	case *TupleV:
+		n := &TupleV{E: make([]Val, len(x.E))}
+		for i, e := range x.E {
+			n.E[i] = ex.deepForce(st, e, depth+1)
+		}
+		return n
+	}
+	return v
 }
